@@ -6,6 +6,10 @@ ALL = ["C%02d" % i for i in range(1, 20)]
 
 # id -> (technique, level text, level note, design ref)
 CLAIMED = {
+ "C18": ("metamorphic comparison of real builds that differ in exactly one option: every differing line and file classified by an independent tokenizer against what the option governs (enumeration of ~255 pairs in thorough, a covering sample in quick)",
+         "Pairs of real builds of the shipped tree at Hamming distance one in (mode, ABI, version, distribution, full) - the cross ABI/version pairs isolate the ABI from the version - are diffed line by line (LCS per file) and by file set; each difference must belong to the class the option governs: block-header flags for the mode; abi declaration, commented AppArmor-4-only rules, abiN-guarded lines, overwrite renames and disable/ links for the ABI; apparmorX.Y-guarded lines and the documented configure additions/removals for the version; distribution/family-guarded lines, files governed by the ignore lists / configure overlay (per the prepare model), manifest header flags for the distribution; exec mode (pu|u)x <-> px without target, the _full profiles and the three documented edits for full.",
+         "Trusts the classifier in c18_test.go (guarded lines are recognised by their text in the source tree, globally, so that stacked content is covered); pure comment lines are counted, not judged (regex builders rewrite them, they are not policy); lines left over on both sides of a file after alignment are alignment artefacts.",
+         "DESIGN.md §2 C18"),
  "C12": ("differential against the reference parser: the library's text vs. an independent canonical printer's text of the same fields, both compiled by apparmor_parser and compared as automata (rapid-generated rule structs, merged+formatted blocks, rules printed from generated logs)",
          "Generated rule structs of every kind AppArmor 3 knows, blocks after Merge/Sort/Format, and rules printed from generated log records are wrapped in a stub profile: the reference parser must accept the library's text and compile it (-M abi/3.0) to the same policy - attachment, policydb and file automata, exec table - as the canonical spelling of the same fields written by an independent printer. Rules printed from well-formed logs must load whatever their values are. Counts of judged / discarded cases are reported per kind.",
          "Trusts apparmor_parser 3.0.8 as judge of 'same access, subject, conditions, peer and target' and the canonical printer in c12_test.go. A case whose canonical text the reference rejects has values that are not valid for AppArmor 3 and is discarded (counted). Two listed known findings (unix protocol=, ix with target) are excluded from the log generator and kept under fixed witnesses.",
